@@ -59,7 +59,12 @@ func gen(rng *rand.Rand, tier core.Tier, emit core.Emit) {
 			if rng.Intn(4) == 0 {
 				src = b
 			}
-			ops = append(ops, reputil.Dg(src, reputil.SrcPort(rng), p))
+			if rng.Intn(6) == 0 {
+				// the attacker comes over IPv6 (the reporter socket is dual-stack): it owns no IPv4 server at all
+				ops = append(ops, reputil.Dg6([]string{"2001:db8::15", "fe80::1", "::1"}[rng.Intn(3)], reputil.SrcPort(rng), p))
+			} else {
+				ops = append(ops, reputil.Dg(src, reputil.SrcPort(rng), p))
+			}
 			if rng.Intn(2) == 0 {
 				ops = append(ops, reputil.Adv(rng))
 			}
